@@ -30,6 +30,8 @@ N = {"quick": 500, "thorough": 6000}
 SHARDS = {"quick": 6, "thorough": 16}
 UNITS = [("m", "length"), ("cm", "length"), ("km", "depth"), ("ft", "depth"), ("s", "time"), ("min", "time"), ("degC", "temperature"), ("K", "temperature"), ("degF", "temperature"), ("kg", "mass"), ("g", "mass")]
 KINDS = gen.CONTAINER_KINDS
+# FixedArrays also over an integer ndarray (a non-integral amount put at an index is still that amount)
+FA_KINDS = KINDS + ("ndarray_int",)
 
 
 def plan(tier, seed):
@@ -482,7 +484,7 @@ class CurveMachine:
 
 def fa_ops():
     vals = st.lists(st.one_of(st.sampled_from([1.0, 2.0, 0.5, -3.0, 10.0]), gen.moderate_values(1e-2, 1e3)), min_size=0, max_size=7)
-    kinds = st.sampled_from(KINDS)
+    kinds = st.sampled_from(FA_KINDS)
     i = st.integers(0, 30)
     forms = st.sampled_from(["dvu", "dcvu", "dc", "dcu", "dq", "dqv", "cwq", "cwqd", "empty", "emptyv", "sub3", "sub3cwq"])
     dims = st.integers(0, 6)
